@@ -246,6 +246,30 @@ def one_generation_per_step(ctx):
                         statement='%s: delta generations = %d' % (sclass, dg))
 
 
+@rule('C04.k', min_instances=4)
+def initial_evaluation_leaves_a_record(ctx):
+    """abstract simulation, first step: once the initial evaluation has been made and the solver finalized (Step finalizes whenever it reports a stop), the step monitor is non-empty - Step recognises "initial evaluation done" by len(self._stepmon), so an empty log after a stop at generation 0 makes every further Step repeat the initial evaluation, and the stopped run has no record of its result"""
+    for key, cls in _step_classes(ctx):
+        sm = stepsim.StepModel(ctx.model, cls)
+        trans, seen = sm.explore()
+        first = [t_ for t_ in trans if t_[0] == '_Step' and t_[1] == (0, None)]
+        ctx.need(first, 'no first-step transition for %s' % cls.name)
+        bad = None
+        n = 0
+        for op, s, s2, dg, nrec, ncb, p, log, live in first:
+            fins = [t_ for t_ in trans if t_[0] == 'Finalize' and t_[1] == s2 and t_[8] is True]
+            if not fins and s2[0] == 0:
+                bad = (p, None, s2)
+            for f_ in fins:
+                n += 1
+                if f_[2][0] < 1:
+                    bad = (p, f_[6], f_[2])
+        ctx.check(bad is None, '%s#first-step-recorded' % cls.name, '%d (first step, Finalize) sequences all end with a non-empty step monitor' % n,
+                  '%s: after the initial evaluation (%s) and Finalize the step monitor is still empty (state %s): a run stopped at generation 0 has no record, '
+                  'and Step repeats the initial evaluation on every further call' % (cls.name, bad[0].describe(5) if bad else '', bad[2] if bad else ''),
+                  sm.step, sm.step.node, statement='%s: empty log after first step + Finalize' % cls.name)
+
+
 @rule('C04.e', min_instances=4)
 def one_callback_per_step(ctx):
     """every normal path of _Step calls callback(self.bestSolution) exactly once when given, after the record of the step"""
